@@ -363,6 +363,12 @@ Proof.
       destruct (t_get id now (tb s)) as [t1|] eqn:Hg; [|cbn; split; [auto|lia]].
       destruct (inv1_get_upd _ _ _ _ _ (xset xi None) Hi Hg (keeps_xset _ _)) as [H1 H2].
       cbn. split; auto. lia.
+  - (* OExAcked *)
+    destruct (t_lookup id (tb s)) as [x|]; [|cbn; split; [auto|lia]].
+    destruct (nth_error (s_exch x) xi) as [[[]|]|]; try (cbn; split; [auto|lia]).
+    destruct (t_get id now (tb s)) as [t1|] eqn:Hg; [|cbn; split; [auto|lia]].
+    destruct (inv1_get_upd _ _ _ _ _ (xset xi (Some XDropAck)) Hi Hg (keeps_xset _ _)) as [H1 H2].
+    cbn. split; auto. lia.
   - (* ORxExch *)
     pose proof (ex_add_inv1 cap mx s id true now Hi Hb) as [H1 [H2 H3]]. unfold next_of in *.
     destruct (ex_add mx s id true now) as [s1 r]. cbn [fst] in H1, H2, H3.
